@@ -785,7 +785,7 @@ fn search(prop: &str, depth: usize, seed: u64, nrandom: usize, len: usize, ties:
     let toggling = prop == "C13";
     let prop = if toggling { "C13T" } else { prop };
     // 1. exhaustive DFS over the small alphabet
-    for tick in [1u32, 2] {
+    for tick in [1u32, 2, 4, 3] {
         let gen = Gen { rng: Xoroshiro128StarStar::seed_from_u64(seed), ties, offgrid_modify: offgrid };
         let mut stack: Vec<Vec<Op>> = vec![vec![]];
         while let Some(prefix) = stack.pop() {
@@ -855,7 +855,7 @@ fn search(prop: &str, depth: usize, seed: u64, nrandom: usize, len: usize, ties:
         if t0.elapsed().as_secs() > budget_s {
             break;
         }
-        let tick = [1u32, 2, 5][k % 3];
+        let tick = [1u32, 2, 5, 4, 3, 8, 10, 1, 2, 7][k % 10];      // powers of two, odd and composite tick sizes
         let levels = [3usize, 1, 10, 5][k % 4];
         let mut h = gen.random_history(len, tick, levels);
         if toggling {
